@@ -246,5 +246,80 @@ theorem appendFor_eq (hc : CfgOK cfg) {L : Layout} (hL : L.Valid) {last : Chunk}
     simp only [hlt, ↓reduceIte, hn]
     rfl
 
+/-! ## Post-conditions of the three chunk-creating functions -/
+
+/-- what `newChunk` / `newChunkForCapacity` / `appendFor` leave behind -/
+structure NewPost (cfg : Cfg) (s s' : State) (r : Except AErr Nat) : Prop where
+  inv : GeomInv cfg s'
+  resps : RespsOK cfg s'
+  cur : s'.cur = s.cur
+  minAlign : s'.minAlign = s.minAlign
+  err : ∀ e, r = .error e → s'.chunks = s.chunks
+  /-- success: exactly one chunk was appended, `r` is its index, its position is the reset position -/
+  ok : ∀ i, r = .ok i → i = s.chunks.length ∧
+    ∃ c, s'.chunks = s.chunks ++ [c] ∧ 16 ∣ c.pos ∧ c.pos = (c.resetPos cfg).pos
+
+theorem newChunk_post (hc : CfgOK cfg) (h : GeomInv cfg s) (hr : RespsOK cfg s) {size : Nat}
+    (hsz : cfg.hdr.size ≤ size) {s' : State} {r : Except AErr Nat} (he : newChunk cfg s size = .ok (s', r)) :
+    NewPost cfg s s' r ∧ (∀ i, r = .ok i → ∃ c, s'.chunks[i]? = some c ∧ size ≤ c.size) := by
+  rw [newChunk_eq hc hr] at he
+  obtain ⟨g1, g2, g3, g4, g5, g6⟩ := newChunkSpec_ok hc h hr hsz he
+  refine ⟨⟨g1, g2, g3, g4, g5, ?_⟩, ?_⟩
+  · intro i hi
+    obtain ⟨e1, p, g, rest, hrs, hg, hle, hch⟩ := g6 i hi
+    have hw := freshChunk_wf hc hg hsz hle
+    exact ⟨e1, _, hch, hw.2.1, hw.2.2⟩
+  · intro i hi
+    obtain ⟨e1, p, g, rest, hrs, hg, hle, hch⟩ := g6 i hi
+    refine ⟨freshChunk cfg p g size, ?_, hle⟩
+    rw [hch, e1, List.getElem?_append, if_neg (Nat.lt_irrefl _), Nat.sub_self]; rfl
+
+theorem newChunk_noFault (hc : CfgOK cfg) (hr : RespsOK cfg s) {size : Nat}
+    (hd : Spec.sizeAlign cfg.up cfg.hdr ∣ size) (hh : HeadOK cfg s size) :
+    ∃ s' r, newChunk cfg s size = .ok (s', r) := by
+  rw [newChunk_eq hc hr]
+  exact newChunkSpec_noFault hc hd hh
+
+/-- making the chunk that was just created current -/
+theorem NewPost.withCur {s s' : State} {i : Nat} (p : NewPost cfg s s' (.ok i)) :
+    GeomInv cfg { s' with cur := .chunk i } := by
+  obtain ⟨e1, c, hch, h16, _⟩ := p.ok i rfl
+  have hget : s'.chunks[i]? = some c := by
+    rw [hch, e1, List.getElem?_append, if_neg (Nat.lt_irrefl _), Nat.sub_self]; rfl
+  exact p.inv.withCur hget (p.inv.minAlign.dvd_of_16 h16)
+
+theorem newChunkForCapacity_post (hc : CfgOK cfg) (h : GeomInv cfg s) (hr : RespsOK cfg s) {L : Layout} (hL : L.Valid) :
+    (∀ s' r, newChunkForCapacity cfg s L = .ok (s', r) → NewPost cfg s s' r) ∧
+    ((∀ size, Spec.calcSize cfg.up cfg.hdr (Nat.max (Spec.hintFromCapacity cfg.up cfg.hdr L) cfg.minChunk) = some size →
+        HeadOK cfg s size) → ∃ s' r, newChunkForCapacity cfg s L = .ok (s', r)) := by
+  rw [newChunkForCapacity_eq hc hL]
+  cases hs : Spec.calcSize cfg.up cfg.hdr (Nat.max (Spec.hintFromCapacity cfg.up cfg.hdr L) cfg.minChunk) with
+  | none =>
+    refine ⟨?_, fun _ => ⟨_, _, rfl⟩⟩
+    intro s' r he
+    cases he
+    exact ⟨h, hr, rfl, rfl, fun _ _ => rfl, fun i hi => by cases hi⟩
+  | some size =>
+    obtain ⟨_, hsa, hsz, _, _⟩ := C12.calcSize_some hc.hdr hs
+    exact ⟨fun s' r he => (newChunk_post hc h hr hsz he).1, fun hb => newChunk_noFault hc hr hsa (hb size rfl)⟩
+
+theorem appendFor_post (hc : CfgOK cfg) (h : GeomInv cfg s) (hr : RespsOK cfg s) {L : Layout} (hL : L.Valid)
+    {last : Chunk} (hlast : s.chunks.getLast? = some last) :
+    (∀ s' r, appendFor cfg s L = .ok (s', r) → NewPost cfg s s' r) ∧
+    ((∀ size, Spec.calcSize cfg.up cfg.hdr
+        (Nat.max (Nat.max (Spec.hintFromCapacity cfg.up cfg.hdr L) (2 * last.size)) cfg.minChunk) = some size →
+        HeadOK cfg s size) → ∃ s' r, appendFor cfg s L = .ok (s', r)) := by
+  rw [appendFor_eq hc hL hlast]
+  cases hs : Spec.calcSize cfg.up cfg.hdr
+      (Nat.max (Nat.max (Spec.hintFromCapacity cfg.up cfg.hdr L) (2 * last.size)) cfg.minChunk) with
+  | none =>
+    refine ⟨?_, fun _ => ⟨_, _, rfl⟩⟩
+    intro s' r he
+    cases he
+    exact ⟨h, hr, rfl, rfl, fun _ _ => rfl, fun i hi => by cases hi⟩
+  | some size =>
+    obtain ⟨_, hsa, hsz, _, _⟩ := C12.calcSize_some hc.hdr hs
+    exact ⟨fun s' r he => (newChunk_post hc h hr hsz he).1, fun hb => newChunk_noFault hc hr hsa (hb size rfl)⟩
+
 end
 end Arena
